@@ -203,6 +203,10 @@ def check(col: Collector, tier: str):
     # surviving containers stored by reference into a reset-able registry
     _check_alias_stores(col, repo, eff, covered)
 
+    # a representation cached on an AST node by an earlier translation is never valid in a later one
+    from sa.props._tr import check_prefix_test
+    col.floor("C07.R7", 2)
+    check_prefix_test(col, "C07.R7", repo)
     # ---------------- R6 fresh visitor / generated code per translation
     col.floor("C07.R6", 5)
     wf = ex.methods["write_cpp_files"]
